@@ -3,6 +3,7 @@ import Verif.C09.NoPanic
 import Verif.C09.Consistent
 import Verif.C09.ParserLemmas
 import Verif.C09.Spelling
+import Verif.C09.AstEq
 /-
 C09 — Pattern bindings: alternatives are atomic, names bind consistently.
 
@@ -119,6 +120,20 @@ example : (match implMatch ["x"] exXX (exCall "a" "a") with
 example : (match implMatch ["x"] exXX (exCall "a" "b") with
     | .done false _ _ => true | _ => false) = true := by rfl
 
+/-- (proved in AstEq.lean) restated: what "agrees" means for a repeated name — the stored subtree
+and the candidate have the same normal form `norm` (transparent wrappers ParenExpr / ExprStmt /
+DeclStmt / LabeledStmt / BlockStmt / FieldList removed, a one-element slice identified with its
+element, kinds and children equal). -/
+example (v t : Tree) (h : astEq v t = .yes) : norm v = norm t := astEq_sound v t h
+
+/-! Non-vacuity: `a` and `(a)` are equal for the matcher and have the same normal form; `a` and `b`
+are different for the matcher and have different normal forms. -/
+def exParen (t : Tree) : Tree := .node "ParenExpr" .E ["X"] [t]
+example : astEq (exIdent "a") (exParen (exIdent "a")) = .yes := by rfl
+example : norm (exIdent "a") = norm (exParen (exIdent "a")) := by rfl
+example : astEq (exIdent "a") (exIdent "b") = .no := by rfl
+example : norm (exIdent "a") ≠ norm (exIdent "b") := by simp [norm, normL, exIdent]
+
 /-! ### the two spellings -/
 
 /-- `(Binding "name" pattern)` and `name@pattern` (and `(Binding "name" nil)` / `name`) are
@@ -147,10 +162,11 @@ theorem spellings_agree (s : Sx) :
       rw [h2] at h
       obtain ⟨hn, hb⟩ := h
       subst hb
-      simp only []
-      split
-      · trivial
-      · exact ⟨rfl, fun t => by rw [← implMatch_normP bs p', ← hn, implMatch_normP]⟩
+      by_cases hlen : bs.length > 64
+      · simp only [hlen, if_true]
+      · simp only [hlen, if_false]
+        refine ⟨trivial, fun t => ?_⟩
+        rw [← implMatch_normP bs p', ← hn, implMatch_normP]
 
 /-! Non-vacuity (DESIGN.md section 6 row 9): `(CallExpr a@(Ident _) [b@(Ident _)])` and its
 explicit form get the same indices a ↦ 0, b ↦ 1. -/
